@@ -209,6 +209,7 @@ class Repo:
             with open(path, encoding="utf-8", errors="replace") as fh:
                 src = fh.read()
             mi = ModuleInfo(name, path, rel, src)
+            mi.repo = self
         except SyntaxError as e:
             raise AnalysisError("cannot parse %s: %s" % (rel, e))
         mi.is_pkg = is_pkg
